@@ -1,4 +1,4 @@
-import Blots.Model.ExprPeg
+import Blots.Model.ExprPeg2
 /-
   Driver handler for the character-level model of the `expression` rule (C10: operators,
   calls, index and field accesses, list literals, lambdas, conditionals, string and record
